@@ -172,7 +172,7 @@ def gen_case(rng, docopts, hostile_ids=None):
         modules[-1]['targets'] = ['nonesuch']
     ids = [m['id'] for m in modules]
     def prof():
-        return {'include_tags': rng.sample(TAGS, rng.choice([1, 2, 2, 3, 3, 0])),
+        return {'include_tags': (sorted({t for m in modules for t in m['tags']}) if rng.random() < 0.5 else rng.sample(TAGS, rng.choice([1, 2, 2, 3, 0]))),
                 'include_modules': rng.sample(ids, rng.choice([0, 0, 1, min(2, len(ids))])) + (['ghost:id'] if rng.random() < 0.1 else []),
                 'exclude_modules': rng.sample(ids, rng.choice([0, 0, 0, 0, 1]))}
     profiles = {'default': prof()}
